@@ -55,7 +55,7 @@ func fixed(out *hx.Out) {
 	}
 	out.P("final")
 	// concurrent writes from inside the in-flight Update: update, delete, delete+reinsert, status-only
-	for i, wk := range []string{"put", "del", "reins", "stat", "statx", "ref"} {
+	for i, wk := range []string{"put", "del", "reins", "stat", "statx", "ref", "pend"} {
 		for _, mode := range []string{"s", "b"} {
 			for _, fail := range []bool{false, true} {
 				out.P("#case fix-inflight-%s-%s-%v-%d", wk, mode, fail, i)
@@ -71,6 +71,62 @@ func fixed(out *hx.Out) {
 				out.P("dump")
 				out.P("final")
 			}
+		}
+	}
+	// StatusSet objects (multi-reconciler shape): the user changes the data / re-marks Pending() while the
+	// FIRST Update of the object is in flight (our reconciler has not reported into the set yet)
+	for _, wk := range []string{"put", "pend", "stat", "reins"} {
+		for _, mode := range []string{"s", "b"} {
+			for _, fail := range []bool{false, true} {
+				out.P("#case fix-sset-inflight-%s-%s-%v", wk, mode, fail)
+				out.P("cfg %s 2 10 40 0 0 1", mode)
+				if fail {
+					out.P("fail 1 0")
+				}
+				out.P("hook 1 0 %s 1", wk)
+				out.P("hookf 1 2 %s 1", wk)
+				out.P("w put 1")
+				out.P("dump")
+				out.P("w put 1")
+				out.P("sleep 20")
+				out.P("w pend 1")
+				out.P("dump")
+				out.P("final")
+			}
+		}
+	}
+	// two (three) objects failing concurrently with staggered retries: the older change's error status is
+	// re-committed after the younger one's; the low watermark must stay at the OLDEST failing change
+	for _, mode := range []string{"s", "b"} {
+		for _, sset := range []int{0, 1} {
+			out.P("#case fix-staggered-lwm-%s-%d", mode, sset)
+			out.P("cfg %s 2 10 160 0 0 %d", mode, sset)
+			for i := 0; i < 5; i++ {
+				out.P("fail 1 %d", i)
+			}
+			for i := 0; i < 3; i++ {
+				out.P("fail 2 %d", i)
+			}
+			out.P("fail 3 0")
+			out.P("w put 1") // t=0, fails, retry at 20
+			out.P("wur cur")
+			out.P("sleep 10")
+			out.P("w put 2") // t=10, fails, retry at 30
+			out.P("wur cur")
+			out.P("sleep 10") // t=20: 1 retried, fails again
+			out.P("wur cur")
+			out.P("w put 3") // t=20 fails, retry at 40
+			out.P("wur cur")
+			out.P("sleep 10") // t=30: 2 retried
+			out.P("wur cur")
+			out.P("sleep 10")
+			out.P("wur cur")
+			out.P("sleep 20")
+			out.P("wur cur")
+			out.P("sleep 40")
+			out.P("wur 1")
+			out.P("dump")
+			out.P("final")
 		}
 	}
 	// foreign status-only write over an Error status while a retry is queued (defect fixed by 8844901):
@@ -148,7 +204,7 @@ func fixed(out *hx.Out) {
 	out.P("final")
 }
 
-var wkinds = []string{"put", "put", "put", "del", "reins", "stat", "statx", "statx", "ref"}
+var wkinds = []string{"put", "put", "put", "del", "reins", "stat", "statx", "statx", "ref", "pend"}
 
 func genCase(r *hx.Rand, prop string, out *hx.Out) {
 	mode := hx.Pick(r, []string{"s", "b"})
@@ -163,7 +219,15 @@ func genCase(r *hx.Rand, prop string, out *hx.Out) {
 		init = 1
 	}
 	nk := 1 + r.Intn(4)
-	out.P("cfg %s %d %d %d %d %d", mode, rs, minb, maxb, prunei, init)
+	sset := 0
+	if r.Chance(50) {
+		sset = 1
+	}
+	out.P("cfg %s %d %d %d %d %d %d", mode, rs, minb, maxb, prunei, init, sset)
+	if r.Chance(20) {
+		genStaggered(r, minb, out)
+		return
+	}
 
 	// failure patterns. Class S: at most one failing key (no two retry items can tie, every hook
 	// placement is deterministic). Class M: several failing keys, hooks only on fresh attempts.
@@ -275,4 +339,49 @@ func genCase(r *hx.Rand, prop string, out *hx.Out) {
 		out.P("dump")
 		out.P(fmt.Sprintf("wur cur"))
 	}
+}
+
+// genStaggered: 2-4 keys that all fail for a while, written at staggered times (multiples of the minimum
+// backoff apart) so that their retries interleave; WaitUntilReconciled probes after every step. Only
+// fresh-attempt hooks (several failing keys).
+func genStaggered(r *hx.Rand, minb int, out *hx.Out) {
+	nk := 2 + r.Intn(3)
+	for k := 1; k <= nk; k++ {
+		l := 1 + r.Intn(5)
+		for i := 0; i < l; i++ {
+			out.P("fail %d %d", k, i)
+		}
+	}
+	if r.Chance(30) {
+		out.P("hookf %d 0 %s %d", 1+r.Intn(nk), hx.Pick(r, []string{"put", "pend", "statx"}), 1+r.Intn(nk))
+	}
+	total := 0
+	order := make([]int, nk)
+	for i := range order {
+		order[i] = i + 1
+	}
+	for i := range order { // shuffle
+		j := i + r.Intn(nk-i)
+		order[i], order[j] = order[j], order[i]
+	}
+	for _, k := range order {
+		out.P("w put %d", k)
+		out.P("wur cur")
+		d := minb * (1 + r.Intn(3))
+		total += d
+		out.P("sleep %d", d)
+		out.P("wur cur")
+	}
+	steps := 3 + r.Intn(6)
+	for i := 0; i < steps && total < 1200; i++ {
+		d := minb * hx.Pick(r, []int{1, 1, 2, 2, 3, 4, 8})
+		total += d
+		out.P("sleep %d", d)
+		out.P("wur %s", hx.Pick(r, []string{"cur", "cur", "1", "cur-1"}))
+		if r.Chance(20) {
+			out.P("w %s %d", hx.Pick(r, []string{"put", "statx", "pend", "del"}), 1+r.Intn(nk))
+		}
+	}
+	out.P("dump")
+	out.P("final")
 }
